@@ -10,6 +10,7 @@ import (
 	"bytes"
 	"encoding/binary"
 	"fmt"
+	"math"
 	"net"
 
 	"github.com/gopacket/gopacket"
@@ -187,7 +188,8 @@ func (d *DHCPv4) DecodeFromBytes(data []byte, df gopacket.DecodeFeedback) error 
 func (d *DHCPv4) Len() uint16 {
 	n := uint16(240)
 	for _, o := range d.Options {
-		if o.Type == DHCPOptPad {
+		// Pad and end options are only a single byte
+		if o.Type == DHCPOptPad || o.Type == DHCPOptEnd {
 			n++
 		} else {
 			n += uint16(o.Length) + 2
@@ -201,7 +203,27 @@ func (d *DHCPv4) Len() uint16 {
 // SerializationBuffer, implementing gopacket.SerializableLayer.
 // See the docs for gopacket.SerializableLayer for more info.
 func (d *DHCPv4) SerializeTo(b gopacket.SerializeBuffer, opts gopacket.SerializeOptions) error {
-	plen := int(d.Len())
+	plen := 240 + 1 // fixed size fields and the end option
+	for i := range d.Options {
+		o := &d.Options[i]
+		// Pad and end options are only a single byte
+		if o.Type == DHCPOptPad || o.Type == DHCPOptEnd {
+			plen++
+			continue
+		}
+		if len(o.Data) > math.MaxUint8 {
+			return fmt.Errorf("DHCPv4 option %s data too long (%d bytes)", o.Type, len(o.Data))
+		}
+		if opts.FixLengths {
+			o.Length = uint8(len(o.Data))
+		} else if int(o.Length) != len(o.Data) {
+			return fmt.Errorf("DHCPv4 option %s length %d does not match data length %d", o.Type, o.Length, len(o.Data))
+		}
+		plen += 2 + len(o.Data)
+	}
+	if plen > math.MaxUint16 {
+		return fmt.Errorf("DHCPv4 options too long (%d bytes)", plen-240)
+	}
 
 	data, err := b.PrependBytes(plen)
 	if err != nil {
@@ -235,8 +257,8 @@ func (d *DHCPv4) SerializeTo(b gopacket.SerializeBuffer, opts gopacket.Serialize
 			if err := o.encode(data[offset:]); err != nil {
 				return err
 			}
-			// A pad option is only a single byte
-			if o.Type == DHCPOptPad {
+			// Pad and end options are only a single byte
+			if o.Type == DHCPOptPad || o.Type == DHCPOptEnd {
 				offset++
 			} else {
 				offset += 2 + len(o.Data)
